@@ -26,6 +26,27 @@ func registerRepoStubs() {
 	intrinsicTab[zPkg+".MemHashString"] = hash("memhash")
 	intrinsicTab["github.com/cespare/xxhash/v2.Sum64"] = hash("xxhash")
 	intrinsicTab["github.com/cespare/xxhash/v2.Sum64String"] = hash("xxhash")
+	// encoding/json on plain data structs: identity round trip (the value is remembered by the
+	// returned byte slice's backing object)
+	intrinsicTab["encoding/json.Marshal"] = func(s *State, fr *Frame, fn *ssa.Function, a []Value, d ssa.Value) (Value, bool) {
+		o := s.newRaw(Const(64, 1), false, "json")
+		if s.jsonVals == nil {
+			s.jsonVals = map[*Object]Value{}
+		}
+		s.jsonVals[o] = a[0].(Iface).V
+		return Tuple{Slice{P: Ptr{Obj: o}, Len: Const(64, 1), Cap: Const(64, 1)}, Iface{}}, false
+	}
+	intrinsicTab["encoding/json.Unmarshal"] = func(s *State, fr *Frame, fn *ssa.Function, a []Value, d ssa.Value) (Value, bool) {
+		sl := a[0].(Slice)
+		v, ok := s.jsonVals[sl.P.Obj]
+		if !ok {
+			panic(execAbort{"unsupported", "json.Unmarshal of bytes not produced by json.Marshal"})
+		}
+		dst := a[1].(Iface)
+		p := dst.V.(Ptr)
+		s.Store(p, dst.T.(*types.Pointer).Elem(), v)
+		return Iface{}, false
+	}
 	intrinsicTab[zPkg+".NanoTime"] = func(s *State, fr *Frame, fn *ssa.Function, a []Value, d ssa.Value) (Value, bool) {
 		return s.fresh("nanotime", 64), false
 	}
